@@ -280,26 +280,33 @@ def gen_ceremonies(rng, m, holders, budget):
 # ---------------------------------------------------------------------------------------------
 
 def plan(rng, thorough):
-    """Ceremony groups: (m, n, holders (1-based key per wallet), sort_keys, witness type)."""
-    base = [(1, 2, [1, 2]), (2, 2, [1, 2]), (2, 3, [1, 2, 3]), (3, 3, [1, 2, 3]), (2, 4, [1, 2, 3, 4]), (2, 3, [1, 1, 2])]
-    groups = [(m, n, h, True, wt) for (m, n, h) in base for wt in WTS]
-    groups.append((2, 3, [1, 2, 3], False, WTS[rng.randrange(3)]))          # sort_keys=False, one common listing order
-    groups.append((3, 5, [1, 2, 3, 4, 5], True, WTS[rng.randrange(3)]))
+    """Ceremony groups: (m, n, holders (1-based key per wallet), sort_keys, witness type).  Quick: 2-of-2 and 2-of-3 on all
+    three witness types, the other shapes on one or two of them (which ones depends on the seed)."""
+    r = rng.randrange(3)
+    rot = [WTS[(r + i) % 3] for i in range(3)]
+    base = [((1, 2, [1, 2]), 1), ((2, 2, [1, 2]), 3), ((2, 3, [1, 2, 3]), 3), ((3, 3, [1, 2, 3]), 2), ((2, 4, [1, 2, 3, 4]), 2),
+            ((2, 3, [1, 1, 2]), 2)]                                          # the last: two wallets of the same cosigner
+    groups = []
+    for k, ((m, n, h), cnt) in enumerate(base):
+        for wt in (WTS if thorough else [rot[(k + i) % 3] for i in range(cnt)]):
+            groups.append((m, n, h, True, wt))
+    groups.append((2, 3, [1, 2, 3], False, rot[0]))                          # sort_keys=False, one common listing order
+    groups.append((3, 5, [1, 2, 3, 4, 5], True, rot[1]))
     if thorough:
         for wt in WTS:
             groups.append((3, 5, [1, 2, 3, 4, 5], True, wt))
             groups.append((1, 3, [1, 2, 3], True, wt))
             groups.append((4, 4, [1, 2, 3, 4], True, wt))
-        groups.append((8, 15, list(range(1, 10)), True, WTS[rng.randrange(3)]))
-        groups.append((2, 15, [15, 1, 7], True, WTS[rng.randrange(3)]))
-        groups.append((15, 15, list(range(1, 16)), True, WTS[rng.randrange(3)]))
+        groups.append((8, 15, list(range(1, 10)), True, rot[0]))
+        groups.append((2, 15, [15, 1, 7], True, rot[1]))
+        groups.append((15, 15, list(range(1, 16)), True, rot[2]))
     return groups
 
 
 def agree_plan(rng, thorough):
     """Agreement jobs (m, n, wt, sort_keys, combos [(listing order 0-based, holder 0-based)]).  Thorough: every listing
-    order x holder for n <= 4; quick: exhaustive for n = 2 and for 2-of-3, and for one witness type (chosen by the seed)
-    a larger sample of n = 4, samples elsewhere (the wallets of the ceremony groups are judged as well)."""
+    order x holder for n <= 4; quick: exhaustive for 2-of-2, and for one witness type (chosen by the seed) exhaustive
+    1-of-2 and 2-of-3 and a larger sample of 2-of-4; samples elsewhere (the wallets of the ceremony groups are judged too)."""
     jobs = []
     big = WTS[rng.randrange(3)]
     for wt in WTS:
@@ -307,18 +314,18 @@ def agree_plan(rng, thorough):
             allc = [(p, h) for p in itertools.permutations(range(n)) for h in range(n)] if n <= 4 else None
             if thorough and allc is not None:
                 combos = allc
-            elif n == 2 or ((m, n) == (2, 3) and wt == big):
+            elif (m, n) == (2, 2) or (wt == big and (m, n) in ((1, 2), (2, 3))):
                 combos = allc
             elif allc is not None:
-                combos = rng.sample(allc, {(2, 3): 6, (3, 3): 4, (2, 4): 16 if wt == big else 6}[(m, n)])
+                combos = rng.sample(allc, {(1, 2): 2, (2, 3): 4, (3, 3): 3, (2, 4): 12 if wt == big else 4}[(m, n)])
             else:
                 combos = []
-                for _ in range(24 if thorough and n <= 7 else 4):
+                for _ in range(24 if thorough and n <= 7 else (8 if thorough else 3)):
                     p = list(range(n))
                     rng.shuffle(p)
                     combos.append((tuple(p), rng.randrange(n)))
-            for part in range(0, len(combos), 8):            # at most 8 wallets per job
-                jobs.append((m, n, wt, True, combos[part:part + 8]))
+            for part in range(0, len(combos), 6):            # at most 6 wallets per job
+                jobs.append((m, n, wt, True, combos[part:part + 6]))
         # sort_keys=False: the script follows the listing order, which all cosigners then have to share
         p = list(range(3))
         rng.shuffle(p)
@@ -406,7 +413,7 @@ def run(replay=None):
     else:
         for k, (m, n, wt, srt, combos) in enumerate(agree_plan(rng, thorough)):
             ajobs.append((seed0 * 1000 + k, m, n, wt, srt, combos, str(k)))
-        budget = 60 if thorough else 20
+        budget = 60 if thorough else 18
         nslots = 2
         for k, (m, n, holders, srt, wt) in enumerate(plan(rng, thorough)):
             W = len(holders)
